@@ -525,6 +525,47 @@ def verifyABCI (lc : LC) (store : Option Bytes) (r : ABCIResp) : Verdict × LC :
       -- VerifyAbsence passes no argument; a ValueOp needs exactly one: always an error
       (.errProof, lc')
 
+/-! ## what a full node's RPC serves: `rpc/core` Tx / TxSearch with `prove` -/
+
+/-- one index hit: where the transaction sits -/
+structure Hit where
+  height : Int
+  index : Nat
+deriving Repr, DecidableEq
+
+def hitBefore (desc : Bool) (a b : Hit) : Bool :=
+  if desc then (if a.height = b.height then decide (a.index > b.index) else decide (a.height > b.height))
+  else (if a.height = b.height then decide (a.index < b.index) else decide (a.height < b.height))
+
+def insertHit (desc : Bool) (x : Hit) : List Hit → List Hit
+  | [] => [x]
+  | y :: ys => if hitBefore desc x y then x :: y :: ys else y :: insertHit desc x ys
+
+/-- the `sort.Slice` of `TxSearch` ((height, index) keys are distinct, so stability is irrelevant) -/
+def sortHits (desc : Bool) (l : List Hit) : List Hit := l.foldr (insertHit desc) []
+
+inductive SearchErr | order | page
+deriving Repr, DecidableEq
+
+/-- `rpc/core.TxSearch` after the index lookup returned `hits`: sort (`desc`, or `asc`/empty; anything
+else is an error), paginate (`validatePerPage`, `validatePage`, `validateSkipCount`), and for every
+result of the page build the proof FROM THE BLOCK AT THAT RESULT'S HEIGHT (`txsAt`): `Txs.Proof(index)`.
+Without `prove` the proof is absent (`none`). -/
+def txSearch (txsAt : Int → List Bytes) (hits : List Hit) (order : String) (prove : Bool)
+    (page perPage : Option Int) : Except SearchErr (Nat × List (Hit × Option TxProof.TxProof)) :=
+  if order ≠ "desc" ∧ order ≠ "asc" ∧ order ≠ "" then .error .order else
+  let sorted := sortHits (order = "desc") hits
+  let total : Int := sorted.length
+  let pp := validatePerPage perPage
+  match validatePage page pp total with
+  | none => .error .page
+  | some p =>
+    let skip := validateSkipCount p pp
+    let n := if pp < total - skip then pp else total - skip
+    let pageHits := (sorted.drop skip.toNat).take n.toNat
+    .ok (sorted.length, pageHits.map fun h =>
+      (h, if prove then some (TxProof.proofFor H (txsAt h.height) h.index) else none))
+
 /-! ## which trusted hash binds which field of an answer -/
 
 inductive Binding
